@@ -243,6 +243,24 @@ def gen_e2e(rng, cap, c, defect=None):
     return dict(kind="e2e", ops=ops, regs=regs, tags=tags)
 
 
+def gen_backlog(rng, cap, c):
+    """a deep backlog: several hundred short messages queued on ONE DLCI (plus a few on others) before the driver pulls anything -
+    counters and indices of the queueing code have to cross 255 / 256"""
+    pool = list(KNOWN_DLCI)
+    rng.shuffle(pool)
+    main, other = pool[0], pool[1]
+    regs = [main, other]
+    ops = [("reg", d) for d in regs]
+    n = rng.choice([255, 256, 257, 300, 520])
+    for k in range(n):
+        ops.append(("send", main, payload(rng, rng.choice([0, 1, 2, 3]))))
+        if k in (0, n // 2, n - 1):
+            ops.append(("send", other, payload(rng, 2)))
+    total = sum(len(frame(o[1], o[2])) for o in ops if o[0] == "send")
+    ops.append(("loop", total + 3))
+    return dict(kind="e2e", ops=ops, regs=regs, tags=set(["backlog"]))
+
+
 def noise(rng, n):
     o = []
     while len(o) < n:
@@ -334,7 +352,7 @@ def gen_cases(ctx, cap, c):
     q = ctx.tier == "quick"
     plan = [(gen_tx, 140 if q else 2500, {}), (gen_e2e, 140 if q else 2500, {}), (gen_rx, 170 if q else 3000, {}),
             (gen_garbage, 50 if q else 600, {}), (gen_reg, 10 if q else 60, {}), (gen_echo, 15 if q else 150, {}),
-            (gen_e2e, 10 if q else 60, dict(defect="dlci")), (gen_rx, 10 if q else 60, dict(defect="noise"))]
+            (gen_e2e, 10 if q else 60, dict(defect="dlci")), (gen_rx, 10 if q else 60, dict(defect="noise")), (gen_backlog, 4 if q else 30, {})]
     cases = []
     for g, n, kw in plan:
         r = rng.fork(g.__name__ + str(sorted(kw.items())))
